@@ -590,16 +590,17 @@ def gen_msignal(ctx, tier):
     # stale snapshot + re-wait: raiser 0 reads the cell and stalls after j accesses while waiters
     # are released by raiser 3 and wait again
     n_aba = 0
-    for j in (1, 2, 3):
-        for w in (1, 2):
-            for extra in seqs([1, 2, 3], 5 if tier == "thorough" else 4):
-                progs = [[(RAISE, 0)], [(WAIT, 0)] * 3, [(WAIT, 0)] * 3, [(RAISE, 0)] * 4]
-                sched = [1] * 8 + ([2] * 8 if w == 2 else []) + [0] * j
-                for e in extra:
-                    sched += [e] * 9
-                sched += [0] * 8
-                cases.append(core.fmt_case([rng.choice([0, 0, -2]), 400], progs, sched))
-                n_aba += 1
+    for rop in (RAISE, STRICT):
+        for j in ((1, 2, 3) if rop == RAISE else (1, 2, 3, 4, 5)):
+            for w in (1, 2):
+                for extra in seqs([1, 2, 3], 5 if tier == "thorough" else 4):
+                    progs = [[(rop, 0)], [(WAIT, 0)] * 3, [(WAIT, 0)] * 3, [(RAISE, 0)] * 4]
+                    sched = [1] * 8 + ([2] * 8 if w == 2 else []) + [0] * j
+                    for e in extra:
+                        sched += [e] * 9
+                    sched += [0] * 12
+                    cases.append(core.fmt_case([rng.choice([0, 0, -2]), 400], progs, sched))
+                    n_aba += 1
     nrand = 2500 if tier == "quick" else 50000
     for _ in range(nrand):
         nt = rng.choice([2, 3, 3, 4, 5])
